@@ -264,7 +264,7 @@ def average_fitness(population: list[T]) -> float:
 
 def get_partner_index(index: int, num_elements: int) -> int:
     while True:
-        partner_index = random.randint(0, num_elements - 1)
+        partner_index = np.random.randint(0, num_elements)
         if partner_index != index:
             break
     return partner_index
